@@ -640,7 +640,7 @@ Section StoreWrite.
   Proof.
     intros m s s' sg [L1 L2 L3 L4 L5 L6 L7 L8] C St D Wl. constructor; try assumption.
     - destruct L7 as (D1 & D2 & D3). split; [auto|]. split; [auto|].
-      intros P h Lh. specialize (D3 P h Lh). unfold parent_ok in *.
+      intros P h Lh Bh. specialize (D3 P h Lh Bh). unfold parent_ok in *.
       destruct (parent_dir (cas_path h)); auto.
     - destruct L8 as [N1 N2]. split; [exact N1|].
       destruct (writer (mwal m)) as [[sgm buf]|]; [|exact I].
@@ -723,7 +723,7 @@ Section StoreWrite.
                    = (Ok tt, w4) /\ Grow w3 w4 /\ parent_ok (wfs w4) q = true).
     { destruct (mpre m) eqn:Pre.
       - exists w3. split; [reflexivity|]. split; [apply grow_refl, S3|].
-        specialize (D3 eq_refl h (H_len c)). fold q in D3. unfold parent_ok, has_dir in *.
+        specialize (D3 eq_refl h (H_len c) (H_byte c)). fold q in D3. unfold parent_ok, has_dir in *.
         now rewrite Dirs3.
       - destruct (mkdir_cas2_ok (nth 0 (hexpath h) []) (nth 1 (hexpath h) []) w3
                     (st_fault _ _ _ _ S3)) as (w4 & E4 & G4 & D4).
